@@ -51,3 +51,15 @@ def __getattr__(name):
         globals()["DictCache"] = cls
         return cls
     raise AttributeError(name)
+
+
+def deco(fn):
+    """a user decorator (documented signature) with scheduling points before and after the wrapped call"""
+
+    def wrapper(context, *a, **kw):
+        _y("deco.before")
+        r = fn(*a, **kw)
+        _y("deco.after")
+        return r
+
+    return wrapper
